@@ -203,7 +203,12 @@ def main(argv=None):
                 n_dis += 1
             else:
                 broken.append((name, cfg, f"canary {cn} was NOT refuted: the contract/engine cannot see a wrong result"))
+        only_ob = (getattr(REG[name], "prop_obligations", None) or {}).get(prop)
         for o in r["obligations"]:
+            # a contract may contribute only some of its clauses to a property (e.g. the effect clause of an array
+            # operation to C16); its other clauses are decided under the properties they belong to
+            if only_ob is not None and not any(o["name"].startswith(px) for px in only_ob):
+                continue
             n_ob += 1
             backends[o["backend"]] = backends.get(o["backend"], 0) + 1
             row = dict(contract=name, cfg=cfg, **{k: o[k] for k in ("name", "kind", "result", "paths", "backend", "solver_s")})
